@@ -9,5 +9,6 @@ mkdir -p .build evidence replays
 OV=$(mktemp -d /tmp/verif-setup-XXXXXX)
 trap 'rm -rf "$OV"' EXIT
 (cd mc && go run ./cmd/instr -repo /repo -out "$OV" && go build -tags verif -overlay "$OV/overlay.json" -o ../.build/mc-sched ./cmd/mc)
+(cd mc && VERIF_INSTR_EXTRA=plugins/allocators go run ./cmd/instr -repo /repo -out "$OV/x" && go build -tags verif -overlay "$OV/x/overlay.json" -o ../.build/mc-sched-x ./cmd/mc)
 (cd mc && go build -tags verif -race -o ../.build/mc-race ./cmd/mc)
 echo setup ok
